@@ -248,6 +248,12 @@ def gen_subs(rng, tier):
         for w in (["0", rng.choice(["1", WRAP[0], HUGE[2]])] if tier == "quick" else ["0", "1", "5"] + HUGE[:3] + WRAP[:1]):
             subs.append(S(cmds=[agg_cmd(rng, iv, w)], lines=lines_for("foo"), wait_ms=1250 if iv in ("1", "2") else 300))
     subs.append(S(cmds=[agg_cmd(rng, "1", "0", regex=False)], lines=lines_for("foo"), wait_ms=1250))
+    # aggregation traffic spread over several buckets, some due at the next flush and some not (timestamps relative to the moment of
+    # sending), with several flush ticks following: flush bookkeeping across partial flushes runs on data from the network
+    for fn in (["sum", "avg"] if tier == "quick" else ["sum", "avg", "max", "min", "last", "count", "delta", "derive", "stdev"]):
+        subs.append(S(cmds=["addAgg %s regex=^foo\\.(.*) agg.$1 1 1" % fn],
+                      lines=["foo.m%d %d @NOW%+d@" % (i % 2, i, off) for i, off in enumerate([-1, 0, 0, 1, 3, 3, 60, 600, 2, -1])], wait_ms=3400))
+
     # B. destination options
     for opt in DEST_OPTS:
         for v in (["0", "1", HUGE[3], HUGE[2], rng.choice(WRAP)] if tier == "quick" else NUMS):
